@@ -304,6 +304,8 @@ def random_ops(desc, W):
                 new_group(before)
                 if h in shared:          # the deep copy owns a copy of the cell with all its _jobs
                     shared.add(before)
+                if h in orphaned:        # ... including the copy of a handle that was moved away
+                    orphaned.add(before)
             if len(W.sessions) > ns:
                 sess_root.append(os.path.relpath(W.sessions[-1].path, W.root))
         elif r < 0.90:
